@@ -151,16 +151,17 @@ def _run_pack(shape, res, sink):
 class FullSymUnits(c05.SymUnitSetup):
     """all five library columns in units with symbolic scales"""
     def lib_units(self):
-        return {"P": self._pu, "e": units.one, "omega": self._ou, "M0": self._mu, "s": self._su}
+        return {"P": self._pu, "e": self._eu, "omega": self._ou, "M0": self._mu, "s": self._su}
 
     def make_units(self):
+        self._eu = units.sym_unit("libE", units.one)        # a scaled dimensionless unit (e.g. percent)
         self._pu = units.sym_unit("libP", units.day)
         self._su = units.sym_unit("libs", units.km / units.s)
         self._ou = units.sym_unit("libO", units.rad)
         self._mu = units.sym_unit("libM", units.rad)
 
     def internal_row(self, row):
-        return [row[0] * self._pu.to(units.day), row[1], row[2] * self._ou.to(units.rad), row[3] * self._mu.to(units.rad), row[4] * self._su.to(self.vunit)]
+        return [row[0] * self._pu.to(units.day), row[1] * self._eu.to(units.one), row[2] * self._ou.to(units.rad), row[3] * self._mu.to(units.rad), row[4] * self._su.to(self.vunit)]
 
 
 def _run_read(shape, res, sink):
@@ -191,7 +192,7 @@ def _run_read(shape, res, sink):
 
             def desc(m):
                 return {"lib": [[str(core.model_value(m, c)) for c in r_] for r_ in lib],
-                        "scales": {k: str(core.model_value(m, getattr(S, k).scale)) for k in ("_pu", "_su", "_ou", "_mu")}}
+                        "scales": {k: str(core.model_value(m, getattr(S, k).scale)) for k in ("_pu", "_su", "_ou", "_mu", "_eu")}}
             want = [S.internal_row(r_) for r_ in lib]
             # stage 1: every row the kernel evaluated is a library row in internal units, in order
             ev = [r_ for call in h.ll_calls for r_ in call]
@@ -281,6 +282,7 @@ def replay(cand):
         lib2.tbl["P"] = lib2.tbl["P"].to(u.year)
         lib2.tbl["omega"] = lib2.tbl["omega"].to(u.deg)
         lib2.tbl["M0"] = lib2.tbl["M0"].to(u.deg)
+        lib2.tbl["e"] = (lib2.tbl["e"] * u.one).to(u.percent)          # a scaled dimensionless unit
         fn = os.path.join(tmpd, "lib2.hdf5")
         lib2.write(fn, overwrite=True)
         shift = n * np.log(1000.0)
